@@ -1,3 +1,7 @@
 SPECIFICATION Spec
+CONSTANTS
+  Adapters2 = {"copied", "enumerate", "flatten", "map", "rev", "skip"}
+  Adapters3 = {}
+  Consumers = {"count", "next", "rfind", "rfold", "rposition", "find"}
 POSTCONDITION Emit
 CHECK_DEADLOCK FALSE
